@@ -5,6 +5,7 @@ import (
 	"regexp"
 	"sort"
 	"strings"
+	"time"
 
 	"verifmc/drv"
 	"verifmc/engine"
@@ -347,6 +348,7 @@ func runC16(c *engine.Ctx) {
 		depth = 6
 		kinds = []drv.Kind{drv.Mem, drv.Bolt, drv.MultiMem}
 	}
+	c.SpecBudget = c.Budget() / time.Duration(2*len(kinds)+1)
 	for _, k := range kinds {
 		for _, mode := range []string{"host-bucket", "bases"} {
 			k, mode := k, mode
